@@ -65,6 +65,45 @@ pub fn dispatch(ctx: &mut Ctx, op: &str, call: &Value) -> Option<Value> {
             json!({"k": "hint", "lo": out::le(sh.0 as u64, 8),
                    "hi": match sh.1 { None => out::none(), Some(h) => out::some(out::le(h as u64, 8)) }})
         }
+        // Iterator trait methods other than next(): a type may override them, so they are observed separately
+        "nth" => {
+            let id = out::arg_u64(call, "it");
+            let n = out::arg_u64(call, "n") as usize;
+            let base = ctx.base;
+            let off = |p: *const u8| json!(out::clamp(p as usize as i128 - base as usize as i128));
+            match ctx.its.get_mut(&id) {
+                None => out::skipped(),
+                Some(It::Tags(it)) => match it.nth(n) {
+                    None => out::none(),
+                    Some(t) => out::some(json!({"at": off((t as *const multiboot2::DynSizedStructure<multiboot2::TagHeader>).cast()),
+                                                "sv": out::num(size_of_val(t))})),
+                },
+                Some(It::HTags(it)) => match it.nth(n) {
+                    None => out::none(),
+                    Some(t) => out::some(json!({"at": off((t as *const multiboot2_common::DynSizedStructure<multiboot2_header::HeaderTagHeader>).cast()),
+                                                "sv": out::num(size_of_val(t))})),
+                },
+                Some(It::Efi(it)) => {
+                    // through the type-erased handle: nth via the trait object's own next() would hide an override
+                    match it.nth_(n) {
+                        None => out::none(),
+                        Some(d) => out::some(json!({"at": off((d as *const multiboot2::EFIMemoryDesc).cast()), "sv": 40})),
+                    }
+                }
+                Some(_) => out::unsupported(),
+            }
+        }
+        "count" => {
+            let id = out::arg_u64(call, "it");
+            match ctx.its.get(&id) {
+                None => out::skipped(),
+                Some(It::Tags(it)) => out::val(it.clone().count() as u64, 8),
+                Some(It::HTags(it)) => out::val(it.clone().count() as u64, 8),
+                Some(It::Mods(it)) => out::val(it.clone().count() as u64, 8),
+                Some(It::Efi(it)) => out::val(it.count_() as u64, 8),
+                Some(_) => out::unsupported(),
+            }
+        }
         "clone" => {
             let id = out::arg_u64(call, "it");
             let to = out::arg_u64(call, "to");
